@@ -298,6 +298,15 @@ func main() {
 	ssrc = fileRe.ReplaceAllString(ssrc, "simFile")
 	ssrc = strings.Replace(ssrc, "\t\"os\"\n", "\t_ \"os\"\n", 1)
 	emit(ksp, ssrc)
+	// buggify seam: storing a term may fail (engine closed under it, write refused): the caller sees an error
+	dbp := filepath.Join(*repo, "server/kv/db.go")
+	dsrc := pending(dbp)
+	re5 := regexp.MustCompile(`(?m)^func \(d \*db\) UpdateTerm\(newTerm int64, options TermOptions\) error \{\n`)
+	if n := len(re5.FindAllStringIndex(dsrc, -1)); n != 1 {
+		die("db.go: UpdateTerm found %d times, expected 1", n)
+	}
+	dsrc = re5.ReplaceAllString(dsrc, "func (d *db) UpdateTerm(newTerm int64, options TermOptions) error {\n\tif err := simTermStoreFault(d.shardId, newTerm); err != nil {\n\t\treturn err\n\t}\n")
+	emit(dbp, dsrc)
 	// clock seam: the timestamp a leader stamps a new entry with
 	lcp := filepath.Join(*repo, "server/leader_controller.go")
 	lsrc := pending(lcp)
